@@ -12,6 +12,7 @@
 // no decisions; it only serialises the resolved program for the Python rules.
 
 #include "clang/AST/AST.h"
+#include "clang/AST/ExprCXX.h"
 #include "clang/AST/ASTConsumer.h"
 #include "clang/AST/RecursiveASTVisitor.h"
 #include "clang/AST/StmtOpenMP.h"
@@ -566,6 +567,16 @@ public:
       kv("k", "Unres", first);
       loc(E, first);
       kv("n", UL->getName().getAsString(), first);
+    } else if (auto *TI = dyn_cast<CXXTypeidExpr>(E)) {
+      kv("k", "Typeid", first);
+      loc(E, first);
+      if (TI->isTypeOperand()) {
+        kv("ty", canonStr(TI->getTypeOperand(Ctx)), first);
+      } else {
+        kv("ty", canonStr(TI->getExprOperand()->getType()), first);
+        key("x", first);
+        expr(TI->getExprOperand());
+      }
     } else if (auto *SV = dyn_cast<CXXScalarValueInitExpr>(E)) {
       kv("k", "ZeroInit", first);
       kv("t", canonStr(SV->getType()), first);
